@@ -921,6 +921,115 @@ Proof.
       destruct Hco as [Hco|[Hco|[Hco|Hco]]]; rewrite Hco; reflexivity.
 Qed.
 
+(* ---- Rename of a file or link ONTO an existing file or link: the decision (result only) --------------------------- *)
+(* something that is not a directory is nobody's ancestor *)
+Lemma is_ancestor_nondir (h : heap) (root a : nat) : node_is_dir h a = false -> forall f d,
+  a <> d -> is_ancestor f h root a d = false.
+Proof.
+  intros Ha. induction f as [|f IH]; intros d Hne; [reflexivity|]. cbn [is_ancestor].
+  replace (Nat.eqb a d) with false by (symmetry; apply Nat.eqb_neq; exact Hne).
+  destruct (Nat.eqb d root) eqn:Hdr; [reflexivity|]. unfold parent_of. rewrite Hdr.
+  destruct (find_parent h 0 d) as [p|] eqn:Hf; [|rewrite Nat.eqb_refl; reflexivity].
+  destruct (Nat.eqb p d); [reflexivity|]. apply IH. intros ->.
+  apply find_parent_some in Hf as (_ & ch & m & n & Hn & _). rewrite Nat.sub_0_r in Hn.
+  unfold node_is_dir, get in Ha. rewrite Hn in Ha. discriminate Ha.
+Qed.
+
+Definition dest_nondir (s : fsys) (sv : sview) (cs : list str) : Prop :=
+  forall par kind name n, klookup s sv false false (abs_path cs) = WNode par kind name n ->
+    node_is_dir (f_heap s) n = false /\ has (m_mode (meta_of (f_heap s) n)) MODE_DIR = false.
+Definition dest_present (s : fsys) (sv : sview) (cs : list str) : Prop :=
+  exists par kind name n, klookup s sv false false (abs_path cs) = WNode par kind name n.
+(* not the same object under two names (listed: C03-RENAME-SAME) *)
+Definition distinct_nodes (s : fsys) (sv : sview) (co cn : list str) : Prop :=
+  forall opar okind oname oc npar nkind nname nc,
+    klookup s sv false false (abs_path co) = WNode opar okind oname oc ->
+    klookup s sv false false (abs_path cn) = WNode npar nkind nname nc -> oc <> nc.
+
+Theorem dstep_rename_replace_result (s : fsys) (sv : sview) (wo : list str) (clo : str) (w : list str) (cl : str) :
+  dac_hyps s sv -> path_ok s sv SlLstat (wo ++ [clo]) -> path_ok s sv SlLstat (w ++ [cl]) ->
+  source_not_dir s sv (wo ++ [clo]) -> dest_present s sv (w ++ [cl]) -> dest_nondir s sv (w ++ [cl]) ->
+  distinct_nodes s sv (wo ++ [clo]) (w ++ [cl]) ->
+  no_sticky_refusal s sv (wo ++ [clo]) -> no_sticky_refusal s sv (w ++ [cl]) ->
+  let o := abs_path (wo ++ [clo]) in
+  let p := abs_path (w ++ [cl]) in
+  proj_res Linux (snd (rename s (sv_view sv) o p)) = snd (go_rename s sv o p).
+Proof.
+  intros H Hpo Hp Hnd (npar & nkind & nname & nc & HK) Hdn Hdist Hst Hstn o p.
+  pose proof (dresolve s sv SlLstat (wo ++ [clo]) H Hpo) as Ro. pose proof (dresolve s sv SlLstat (w ++ [cl]) H Hp) as R.
+  destruct Hpo as (Hgo & Hko1 & _ & Hnfo). destruct Hp as (Hg & Hk1 & _ & Hnf).
+  change (follow_of SlLstat) with false in Ro, R, Hk1, Hko1. change (precise_of SlLstat) with true in Ro, R.
+  destruct (klookup_pm s sv false wo clo Hgo Hko1) as (Hokn & Hokg & Hopm).
+  destruct (klookup_pm s sv false w cl Hg Hk1) as (Hkn & Hkg & Hpm).
+  pose proof (klookup_final s sv false (wo ++ [clo]) Hgo) as Hofin.
+  pose proof (klookup_final s sv false (w ++ [cl]) Hg) as Hfin.
+  unfold o, p, rename, go_rename, k_stat, k_rename, win. rewrite (dh_os _ _ H). cbn [ostype_eqb]. rewrite Hopm, Hpm.
+  set (ro := search_node s (sv_view sv) (abs_path (wo ++ [clo])) SlLstat) in *.
+  set (rn := search_node s (sv_view sv) (abs_path (w ++ [cl])) SlLstat) in *.
+  unfold source_not_dir in Hnd. unfold dest_nondir in Hdn. unfold distinct_nodes in Hdist. unfold no_sticky_refusal in Hst, Hstn.
+  rewrite HK in *. cbn [walk_rel] in R.
+  destruct (Hkn _ _ _ _ eq_refl) as (-> & ->). destruct Hfin as (F1 & F2 & F3).
+  destruct R as (R1 & R2 & R3 & _ & _ & R4). destruct (R4 eq_refl) as (R5 & R6).
+  destruct (at_name_views _ _ _ _ _ _ (R6 eq_refl)) as (V1 & V2 & dn & V3 & V4 & V5).
+  destruct (Hdn _ _ _ _ eq_refl) as (Hncd & Hncm). specialize (Hstn _ _ _ _ eq_refl).
+  assert (Hpre : forall nm, has (fi_mode (k_info (f_heap s) nc nm)) MODE_DIR = false).
+  { intros nm. unfold k_info, meta_of in *. destruct (get (f_heap s) nc) as [[? ?|? ? ? ?|? ?]|]; exact Hncm. }
+  rewrite Hpre.
+  destruct (klookup s sv false false (abs_path (wo ++ [clo]))) as [op okind oname oc|op oname omd| |e] eqn:HKo; cbn [walk_rel] in Ro.
+  - destruct (Hokn _ _ _ _ eq_refl) as (-> & ->). destruct Hofin as (G1 & G2 & G3).
+    destruct Ro as (O1 & O2 & O3 & _ & _ & O4). destruct (O4 eq_refl) as (O5 & O6).
+    destruct (at_name_views _ _ _ _ _ _ (O6 eq_refl)) as (W1 & W2 & do & W3 & W4 & W5).
+    specialize (Hnd _ _ _ _ eq_refl). specialize (Hst _ _ _ _ eq_refl). specialize (Hdist _ _ _ _ _ _ _ _ eq_refl eq_refl).
+    assert (Hsame : str_eqb (pi_path (sr_pi ro)) (pi_path (sr_pi rn)) = false).
+    { apply str_eqb_neq. rewrite W3, V3. intros E. apply abs_path_inj in E; [|apply Forall_comp_ok_of; assumption..].
+      apply app_inj_tail in E as (-> & ->). rewrite W4 in V4. injection V4 as ->. congruence. }
+    rewrite O1, R1, O5, O2, R5, R2, Hsame. cbn [is_file_exists is_not_exist negb andb orb].
+    rewrite (perm_on_write_searchable _ _ _ G3), (perm_on_write_searchable _ _ _ F3).
+    rewrite G1, F1, Hnd. cbn [negb andb orb].
+    rewrite (is_ancestor_nondir _ _ _ Hncd) by (intros ->; rewrite G2 in Hncd; discriminate Hncd).
+    replace (Nat.eqb nc oc) with false by (symmetry; apply Nat.eqb_neq; congruence).
+    rewrite (may_delete_nosticky _ _ _ _ _ Hst), (may_delete_nosticky _ _ _ _ _ Hstn), Hnd, Hncd.
+    assert (Hne : dir_nonempty (f_heap s) nc = false).
+    { unfold dir_nonempty, node_is_dir in *. destruct (get (f_heap s) nc) as [[? ?|? ? ? ?|? ?]|]; try reflexivity. discriminate Hncd. }
+    rewrite Hne.
+    destruct (kperm (f_heap s) op 3 (v_user (sv_view sv))) eqn:Hpo; cbn [negb]; [|reflexivity].
+    destruct (Nat.eqb_spec npar op) as [->|Hnp]; cbn [negb andb].
+    + rewrite Hpo. cbn [negb].
+      unfold node_is_dir in Hnd, Hncd.
+      destruct (get (f_heap s) oc) as [[? ?|? ? ? ?|? ?]|]; try discriminate Hnd; try congruence;
+        destruct (get (f_heap s) nc) as [[? ?|? ? ? ?|? ?]|]; try discriminate Hncd; try congruence; reflexivity.
+    + destruct (kperm (f_heap s) npar 3 (v_user (sv_view sv))); cbn [negb]; [|reflexivity].
+      unfold node_is_dir in Hnd, Hncd.
+      destruct (get (f_heap s) oc) as [[? ?|? ? ? ?|? ?]|]; try discriminate Hnd; try congruence;
+        destruct (get (f_heap s) nc) as [[? ?|? ? ? ?|? ?]|]; try discriminate Hncd; try congruence; reflexivity.
+  - destruct Ro as (O1 & _). pose proof (Hokg _ _ _ eq_refl) as ->. destruct Hofin as (G1 & _).
+    rewrite O1, G1. reflexivity.
+  - destruct Ro.
+  - destruct Ro as (O1 & _). destruct (werr_cases _ _ O1 Hnfo) as (Hc & ->).
+    destruct Hc as [Hc|[Hc|[Hc|Hc]]]; rewrite Hc; reflexivity.
+Qed.
+
+(* ---- Chown / Lchown by a non-administrator ------------------------------------------------------------------------ *)
+(* MemFS refuses every such call with EPERM before looking at the path; the kernel refuses (EPERM) exactly the
+   changes of [chown_refused] once the path is resolved.  The two agree where the path resolves and the kernel
+   refuses; everything else is listed (C03-CHOWN-NONROOT: the owner may give the file to one of its groups, (-1,-1)
+   is a no-op for anybody; C03-ERRNO-PRIORITY: the walk's error comes first in the kernel) *)
+Definition chown_refused (m : meta) (u : user) (uid gid : Z) : bool :=
+  negb (us_admin u
+        || (Z.eqb uid (-1) && Z.eqb gid (-1))
+        || (Z.eqb (m_uid m) (us_uid u) && (Z.eqb uid (-1) || Z.eqb uid (m_uid m)) && (Z.eqb gid (-1) || Z.eqb gid (us_gid u)))).
+
+Theorem dstep_chown_refused (slm : slmode) (s : fsys) (sv : sview) (p : str) (uid gid : Z) (par : nat) (kind : lastk) (name : str) (n : nat) (nd : node) :
+  us_admin (v_user (sv_view sv)) = false -> v_idm (sv_view sv) = true ->
+  klookup s sv false (follow_of slm) p = WNode par kind name n -> get (f_heap s) n = Some nd ->
+  chown_refused (node_meta nd) (v_user (sv_view sv)) uid gid = true ->
+  (fst (chown_gen slm s (sv_view sv) p uid gid), proj_res Linux (snd (chown_gen slm s (sv_view sv) p uid gid)))
+  = k_chown (follow_of slm) s sv p uid gid.
+Proof.
+  intros Ha Hi HK Hg Hr. unfold chown_gen, k_chown. rewrite Ha, Hi, HK, Hg. cbn [negb andb orb fst snd proj_res].
+  unfold chown_refused in Hr. rewrite Ha in Hr. cbn [orb] in Hr. cbv zeta. rewrite Hr. reflexivity.
+Qed.
+
 (* ---- the step theorem at the level of worlds, any user ----------------------------------------------------------- *)
 Definition open_covered (s : fsys) (sv : sview) (p : str) (flag : N) : Prop :=
   (N.land flag 3 < 3)%N /\
